@@ -13,6 +13,17 @@ def run(ctx):
     ctx.drv_json("builtins", "-seed", ctx.seed, "-repo", vlib.REPO, "-out", out)
     out2 = ctx.path("builtin-polluted.ndjson")      # a second process in which other recipes are used BEFORE the built-ins are first read
     ctx.drv_json("builtins", "-seed", ctx.seed, "-repo", vlib.REPO, "-out", out2, "-pollute-first")
+    # a required class is exactly its documented (ASCII) members: complete small trees of recipes that allow other characters of the same
+    # Unicode category next to a required class - a password without a documented member must never be returned
+    from checks import charfam
+    cls = [s_ for s_ in charfam.directed_small_trees() if s_["char"]["require"] and s_["char"]["allowChars"]]
+    cfiles, ccells, cleaves = charfam.run_scenarios(ctx, cls, "c16cls", shards=2)
+    cverd, _ = charfam.validate(ctx, cfiles)
+    for vv, ff in zip(cverd, cfiles):
+        for b in vv["bad"]:
+            if b["why"] in ("P:C03:password-violates-its-recipe", "P:C03:Alphabet()-is-not-the-sorted-duplicate-free-set-of-usable-characters"):
+                ctx.violation("a-required-built-in-class-is-not-exactly-its-documented-members (%s)" % b["why"][6:], charfam.describe_char(b["l"], ff, b["why"]))
+    ctx.cover["class_membership_trees"] = ccells
     v = ctx.validate("BuiltinTrace", out)
     v2 = ctx.validate("BuiltinTrace", out2)
     ev = vlib.read_ndjson(out) + vlib.read_ndjson(out2)
